@@ -61,8 +61,8 @@ CHECKS = {
    note="Scheduling inside the workers is not controlled; source port 0 is injected through a raw IPv4 socket; datagrams beyond 5 KiB not sent."),
  "C18": dict(level="exploration", engine="netmc", ref="§3 C18",
    technique="exhaustive enumeration of configuration values against real trackers started through run() in child processes, worst-case accepted request per value, control request of identical length",
-   text="For UDP (mio and io_uring, IPv4 and IPv6) and HTTP, every configuration value in the tier's range (quick: 0, 1, defaults, both sides of each buffer threshold; thorough: every value 0..=600 plus IPv4 thresholds, every u8 max_scrape_torrents) starts a real tracker through run() - or the start-up is observed to be refused; the swarm is filled to exactly the limit and to limit+1 and the request with the largest possible reply is sent; HTTP scrapes of every hash count the request buffer admits are sent, each paired with a same-length control request, so that a closed connection or silence with an answered control is a reply that did not fit.",
-   note="Requests the request path rejects are out of scope (C06/C16); counters are small (buffers are sized for 20-digit counters)."),
+   text="For UDP (mio and io_uring, IPv4 and IPv6) and HTTP, every configuration value in the tier's range (quick: 0, 1, defaults, both sides of each buffer threshold; thorough: every value 0..=600 plus IPv4 thresholds, every u8 max_scrape_torrents) starts a real tracker through run() - or the start-up is observed to be refused; the swarm is filled to exactly the limit and to limit+1 and the request with the largest possible reply is sent; HTTP scrapes of every hash count the request buffer admits are sent, each paired with a same-length control request, so that a closed connection or silence with an answered control is a reply that did not fit. WebTorrent: websocket_write_buffer_size x websocket_max_message_size x max_scrape_torrents x swarm workers (quick: the defaults and each value on its own; thorough: the full product of 54): the largest accepted announce with an offer, its answer, and a scrape of max_scrape_torrents torrents with six-byte-per-character identifiers must be delivered whole and leave the connections usable.",
+   note="Requests the request path rejects are out of scope (C06/C16); counters are small (buffers are sized for 20-digit counters); WebTorrent frames are sent fragmented below websocket_max_frame_size."),
  "C19": dict(level="fault_enumeration", engine="netmc", ref="§3 C19",
    technique="exhaustive enumeration of fault plans (worker kind x fault point x panic/return x time x worker count) against run() in child processes, injected through cfg-gated probes",
    text="78 (quick) / ~180 (thorough) fault plans: for UDP (mio and io_uring), HTTP and WS, every worker kind (socket, swarm, cleaning, statistics, signals, metrics/prometheus) is made to panic - and, where returning ends the worker function, to return - at start-up, at its first loop iteration and after requests have been served, with 1 and 2 workers of the kind; plus a tracker socket and a metrics endpoint that cannot be bound (no hook). Each plan runs the real run() in a child process with traffic / SIGUSR1 as needed to reach the point; run() must return Err within 10 s of the probe firing. A plan whose point is never reached is a machinery failure, not a pass.",
